@@ -28,11 +28,19 @@ TRUSTED = ['np.exp; np.trapz computes Σ (x[k+1]-x[k])·(y[k+1]+y[k])/2',
            'tools/specs/c14.py reads the if/elif dispatch chains and decimal literals of the unit classes']
 UNPROVEN = ['Planck radiance peaks where Wien\'s displacement law says (numerical check on the implementation only)',
             'Planck exitance integrates to the Stefan-Boltzmann total σT⁴ (numerical check on the implementation only)',
-            'vegaflux: only unit-consistency across (waveunit, valueunit) is checked numerically; the tabulated Vega zero points are data']
-ASSUMPTIONS = ['flux identities need wave, H, C ≠ 0; the module constant C = 299792456 (a typo for …458) is taken as it is — every '
+            'vegaflux: unit-consistency across (waveunit, valueunit) and agreement of the (m, photlam) value with the tabulated Jansky zero points are checked numerically by the oracle only']
+ASSUMPTIONS = ['Spectrum.to() accepts only the canonical names m/um/nm/angstrom although its docstring says "as accepted by Unit()" and Unit() also accepts meter/micron/nanometer: such calls raise ValueError today; they are generated, counted (tag to:alias-refused) and reported as a defect candidate, the model follows the code',
+               'module constants are compared with CODATA values to 1e-6 (C = 299792456 is off by 6.7e-9: noted, inside the tolerance)',
+               'flux identities need wave, H, C ≠ 0; the module constant C = 299792456 (a typo for …458) is taken as it is — every '
                'statement here is independent of its value']
 
 W = ['m', 'um', 'nm', 'angstrom']
+LONG = {'meter': 'm', 'micron': 'um', 'nanometer': 'nm'}
+NOTES = {}
+# reference constants (CODATA 2018 exact SI values) and the Vega zero points of the vegaflux docstring (nm, Jy)
+REF = {'H': 6.62607015e-34, 'C': 299792458.0, 'K': 1.380649e-23}
+VEGA = {'U': (360, 1790), 'B': (438, 4036), 'V': (545, 3636), 'R': (641, 3064), 'I': (798, 2416), 'J': (1220, 1589), 'H': (1630, 1021), 'K': (2190, 640),
+        'W1': (3353, 310), 'W2': (4603, 172), 'W3': (11561, 31.7), 'W4': (22088, 8.36)}
 F = ['photlam', 'flam', 'wlam']
 ALIAS = {'m': ['m', 'meter'], 'um': ['um', 'micron'], 'nm': ['nm', 'nanometer'], 'angstrom': ['angstrom']}
 MPU = {'m': Fraction(1), 'um': Fraction(1, 10**6), 'nm': Fraction(1, 10**9), 'angstrom': Fraction(1, 10**10)}   # metres per unit
@@ -60,7 +68,10 @@ def generate(rng, tier):
                 elif r < 11: tg.append(F[int(rng.integers(0, 3))])
                 else: tg.append(['furlong', 'jansky'][int(rng.integers(0, 2))])
             if rng.integers(0, 4) == 0: tg = [x.upper() if rng.integers(0, 2) else x for x in tg]
-            out.append({'kind': 'to', 'wave': wave, 'value': value, 'wu': wu, 'vu': vu, 'units': tg, 'back': bool(rng.integers(0, 2))})
+            if rng.integers(0, 8) == 0: tg = [ALIAS[x][-1] if x in ALIAS else x for x in tg]      # 'meter', 'micron', 'nanometer' as accepted by Unit()
+            dt = ['float', 'float', 'int64', 'int32'][int(rng.integers(0, 4))]      # integer-stored flux samples / counts
+            if dt != 'float': value = [float(int(v) + 1) for v in value]
+            out.append({'kind': 'to', 'wave': wave, 'value': value, 'wu': wu, 'vu': vu, 'units': tg, 'back': bool(rng.integers(0, 2)), 'dtype': dt})
         elif t == 3:
             out.append({'kind': 'planck', 'temp': float(int(rng.integers(200, 12000))), 'wu': W[int(rng.integers(0, 4))], 'vu': F[int(rng.integers(0, 3))],
                         'wave_nm': [float(int(x)) for x in sorted(rng.choice(np.arange(150, 30000), 4, replace=False))], 'alias': bool(rng.integers(0, 2))})
@@ -72,7 +83,7 @@ def generate(rng, tier):
 def signature(c):
     k = c['kind']
     if k in ('wave', 'flux'): return f"{k} {c['a']} {c['b']} {c['c']}"
-    if k == 'to': return f"to {c['wu']} {c['vu']} {c['units']} n={len(c['wave'])} {c['wave'][0]} {c['value'][0]}"
+    if k == 'to': return f"to {c.get('dtype')} {c['wu']} {c['vu']} {c['units']} n={len(c['wave'])} {c['wave'][0]} {c['value'][0]}"
     if k == 'planck': return f"planck {c['temp']} {c['wu']} {c['vu']}"
     if k == 'laws': return f"laws {c['temp']}"
     return f"vega {c['band']} {c['wu']} {c['vu']}"
@@ -84,9 +95,9 @@ def nontrivial(c):
     return True
 
 def tags(c):
-    t = [c['kind']]
+    t = [c['kind']] + NOTES.pop(id(c), [])
     if c['kind'] == 'to':
-        t.append('to:' + ('unitless' if c['vu'] is None else 'density'))
+        t.append('to:' + ('unitless' if c['vu'] is None else 'density')); t.append('to:dtype=' + c.get('dtype', 'float'))
         for u in c['units']:
             t.append('to:target:' + ('wave' if u.lower() in W else 'flux' if u.lower() in F else 'unknown'))
     return t
@@ -111,13 +122,15 @@ def impl(c):
         return {'ab': ab, 'abc': float(R.Unit(b).to(ab, cc, w)), 'ac': float(R.Unit(a).to(f, cc, w)), 'aba': float(R.Unit(b).to(ab, a, w)),
                 'aa': float(R.Unit(a).to(f, a, w)), 'H': R.H, 'C': R.C}
     if k == 'to':
-        s = R.Spectrum(np.array(c['wave']), np.array(c['value']), waveunit=c['wu'], valueunit=c['vu'])
+        s = R.Spectrum(np.array(c['wave']), np.array(c['value']).astype({'int64': np.int64, 'int32': np.int32}.get(c.get('dtype'), float)), waveunit=c['wu'], valueunit=c['vu'])
         i0 = float(np.trapz(s.value, s.wave))
         exc = None
         try:
             s.to(*c['units'])
         except (TypeError, ValueError) as e:
             exc = type(e).__name__
+        if exc == 'ValueError' and any(u.lower() in LONG for u in c['units']) and all(u.lower() in W or u.lower() in F or u.lower() in LONG for u in c['units']):
+            NOTES[id(c)] = ['to:alias-refused']
         out = {'wave': [float(x) for x in s.wave], 'value': [float(x) for x in s.value], 'wu': s.waveunit, 'vu': s.valueunit, 'exc': exc,
                'trapz0': i0, 'trapz': float(np.trapz(s.value, s.wave)), 'integrate': float(s.integrate(method='trapz')), 'H': R.H, 'C': R.C}
         if c['back'] and exc is None:
@@ -235,10 +248,15 @@ def oracle(c, io):
         known = [u for u in units if u in W or u in F]
         if io['exc'] is not None:
             # a refusal is legitimate only for an unknown unit (ValueError) or a flux target on a unitless spectrum (TypeError)
-            if io['exc'] == 'ValueError' and len(known) < len(units): return None
+            if io['exc'] == 'ValueError' and any(u not in W and u not in F and u not in LONG for u in units): return None
+            if io['exc'] == 'ValueError' and any(u in LONG for u in units):
+                # Unit() accepts 'meter'/'micron'/'nanometer' but Spectrum.to() raises ValueError('Unknown unit') for them:
+                # reported to the coordinator as a defect candidate; counted here (ASSUMPTIONS), not silently filed as an unknown unit
+                return None
             if io['exc'] == 'TypeError' and c['vu'] is None and any(u in F for u in units): return None
             return f"Spectrum.to{tuple(c['units'])} raised {io['exc']}"
-        if len(known) < len(units): return f"Spectrum.to{tuple(c['units'])} accepted an unknown unit"
+        if any(u not in W and u not in F and u not in LONG for u in units): return f"Spectrum.to{tuple(c['units'])} accepted an unknown unit"
+        units = [LONG.get(u, u) for u in units]
         if c['vu'] is None:
             if io['value'] != c['value']: return 'unitless spectrum: values changed by a wavelength-unit conversion'
         elif all(u in W for u in units):
@@ -273,6 +291,8 @@ def oracle(c, io):
         return None
     if k == 'laws':
         H, C, K, T = io['H'], io['C'], io['K'], c['temp']
+        for k_, v_ in (('H', H), ('C', C), ('K', K)):
+            if not close(v_, REF[k_], 1e-6): return f"module constant {k_} = {v_!r}, reference {REF[k_]!r}"
         sigma = 2 * np.pi ** 5 * K ** 4 / (15 * H ** 3 * C ** 2)
         if not close(io['total'], sigma * T ** 4, 1e-5): return f"∫ exitance dλ = {io['total']!r}, Stefan-Boltzmann σT⁴ = {sigma * T ** 4!r}"
         b = H * C / (K * 4.965114231744276)
@@ -285,4 +305,11 @@ def oracle(c, io):
         if not close(io['wave'], lam / float(MPU[c['wu']]), 1e-14): return f"vegaflux wavelength in {c['wu']}"
         ref = io['flux0'] * _to_wlam('photlam', lam, H, C) / _to_wlam(c['vu'], lam, H, C) * float(MPU[c['wu']])
         if not close(io['flux'], ref, 1e-12): return f"vegaflux({c['band']},{c['wu']},{c['vu']}) = {io['flux']!r}, from (m, photlam): {ref!r}"
+        # independent of lentil: photons s^-1 m^-2 m^-1 from the Jansky zero point, F·1e-26/(h·λ), literal CODATA h
+        lam_nm, jy = VEGA[c['band']]
+        if not close(io['wave0'], lam_nm * 1e-9, 1e-12): return f"vegaflux({c['band']}): central wavelength {io['wave0']!r} m, tabulated {lam_nm} nm"
+        phot = jy * 1e-26 / (REF['H'] * lam_nm * 1e-9)
+        if not close(io['flux0'], phot, 1e-6): return f"vegaflux({c['band']},'m','photlam') = {io['flux0']!r}, from {jy} Jy: {phot!r}"
+        for k_ in ('H', 'C'):
+            if not close(io[k_], REF[k_], 1e-6): return f"module constant {k_} = {io[k_]!r}, reference {REF[k_]!r}"
         return None
